@@ -1,6 +1,10 @@
 """C15 — linear-form extraction and affine solving are exact.
 
-Three streams:
+T-gen: `extract/coefficient.py` regenerates lean/PV/Generated/Coefficient.lean (the code under this
+property, statement by statement) on every run; streams `table-*` run the table interpreter of
+lean/PV/Model/CoeffTable.lean on it against the real code.
+
+Three model streams:
   * `coefficients`  CoefficientCollector(target_names)(expr) against the model `coeffs`, and the
                     property's own statement checked with an exact rational interpreter;
   * `gauss`         gaussian_elimination on small integer matrices against `gaussElim`, and the
@@ -947,6 +951,83 @@ class SolveStream(Stream):
 # }}}
 
 
+# {{{ T-gen: the regenerated table and the streams that run its interpreter
+
+def extract(ctx=None):
+    """T-gen: lean/PV/Generated/Coefficient.lean (every handler of CoefficientCollector, the
+    dispatch table, gaussian_elimination, solve_affine_equations_for and their helpers, statement
+    by statement) from the live source of the tree under check"""
+    from extract.coefficient import extract_coefficient
+    return extract_coefficient(ctx)
+
+
+class TableCoeffStream(CoeffStream):
+    """T-gen tie: the compiled TABLE INTERPRETER (`c15CoeffsT`) run on the handler table regenerated
+    from the working tree against the real collector.  Agreement here + `coeffs_eq_table_current`
+    is what makes the theorems about `coeffs` theorems about the source; after an edit of the
+    source the regenerated table still follows the code (this stream keeps agreeing) while the
+    obligation breaks and the `coefficients` stream shows the failing input."""
+    name = "table-coefficients"
+
+    def cases(self, rng, tier):
+        for i, pl in enumerate(super().cases(rng, tier)):
+            if pl["kind"] in ("degenerate", "small2") or i % 3 == 0:
+                yield pl
+
+    def request(self, pl):
+        return f"(c15-coeffs-table {tg_req(pl['targets'])} {pl['expr']})"
+
+    def oracle(self, pl):
+        return None
+
+    def stats(self, pl, mo, io, acc):
+        pass
+
+
+class TableGaussStream(GaussStream):
+    """T-gen tie: `gaussian_elimination` as regenerated (loop nest, pivot search, row exchange with
+    its copies, row update, gcd normalisation) run by the table interpreter against the real code."""
+    name = "table-gauss"
+
+    def cases(self, rng, tier):
+        for i, pl in enumerate(super().cases(rng, tier)):
+            if i % 2 == 0 or not pl["rows"]:
+                yield pl
+
+    def request(self, pl):
+        rows = " ".join("((" + " ".join(map(str, a)) + ") (" + " ".join(map(str, b)) + "))"
+                        for a, b in pl["rows"])
+        return f"(c15-gauss-table {pl['n']} ({rows}))"
+
+    def oracle(self, pl):
+        return None
+
+
+class TableSolveStream(SolveStream):
+    """T-gen tie: `solve_affine_equations_for` as regenerated (matrix assembly, the call of the
+    elimination, read-off and value assembly) run by the table interpreter, one answer per
+    enumeration order of the parameter set, against the real code."""
+    name = "table-solve"
+
+    def cases(self, rng, tier):
+        for i, pl in enumerate(super().cases(rng, tier)):
+            if i % 3 == 0 or pl["style"] == "example":
+                yield pl
+
+    def request(self, pl):
+        names = " ".join(dumps(u) for u in pl["unknowns"])
+        eqs = " ".join(f"({l} {r})" for l, r in pl["eqs"])
+        return f"(c15-solve-table ({names}) ({eqs}))"
+
+    def oracle(self, pl):
+        return None
+
+    def stats(self, pl, mo, io, acc):
+        pass
+
+# }}}
+
+
 # {{{ probes: known findings and the repaired defect, replayed on the real code
 
 def probe():
@@ -1000,16 +1081,24 @@ def probe():
 PROP = Prop(
     id="C15",
     title="Linear-form extraction and affine solving are exact",
-    lean_targets=["PV.Properties.C15"],
+    lean_targets=["PV.Properties.C15", "PV.Properties.C15Table"],
     theorems=[],
-    streams=[CoeffStream(), GaussStream(), SolveStream()],
+    extractors=[extract],
+    streams=[CoeffStream(), GaussStream(), SolveStream(),
+             TableCoeffStream(), TableGaussStream(), TableSolveStream()],
     probes=[probe],
     trusted_base=["Lean 4.33 kernel; axioms propext, Classical.choice, Quot.sound only",
                   "harness serialisation; PyNum/Ops as models of CPython arithmetic and of the "
                   "operator overloads (validated by C02/C03 each run)",
                   "numpy object arrays hold Python ints (row operations are elementwise Python "
                   "arithmetic); the iteration order of the parameter set is not modelled (every "
-                  "order is accepted)"],
+                  "order is accepted)",
+                  "extract/coefficient.py (ast reader of CoefficientCollector, gaussian_elimination, "
+                  "solve_affine_equations_for, lcm, gcd, gcd_many; unknown statement shapes are "
+                  "extraction errors) and the meaning of the statement language of "
+                  "lean/PV/Model/CoeffTable.lean — both tied to the real code by the table-* streams; "
+                  "extended_euclidean (Algo.extEuclid, C19) and the DependencyMapper (deps, C09) stay "
+                  "hand-written inside the table interpreter"],
     assumptions=["coeffs_sound: no bool/float constants or keyword calls in the expression "
                  "(Python == is then structural on keys); every reciprocal 1/d introduced by a "
                  "Quotient evaluates exactly",
@@ -1021,12 +1110,18 @@ PROP = Prop(
                "rejected; every row operation and the gcd normalisation of gaussian_elimination "
                "preserve the rational solution set; the values read off by the solver satisfy every "
                "row identically in the parameters when the reduced matrix has the single-entry "
-               "shape. Tied to the real code by three correspondence streams.",
+               "shape. Tied to the real code by three correspondence streams, and to the SOURCE TEXT "
+               "by T-gen: every handler of the collector and the loop nests of gaussian_elimination / "
+               "solve_affine_equations_for are re-read statement by statement on every run; the "
+               "regenerated table is proved equal to the literal the model was written against, and "
+               "coeffs / gaussElim / solveAffine are proved (for all inputs) to be the table "
+               "interpreter run on it.",
     level_note="Partial: the solver accepts underdetermined and inconsistent systems (known findings, "
                "negation witnesses proved); composite leaves hide targets; floats are outside the "
                "exact model. The two-sided overwrite in the matrix assembly is repaired (0e8d81e): "
                "the assembled row is proved to represent lhs - rhs.",
-    technique="Lean 4 proofs about the dictionary/elimination model + differential correspondence "
-              "+ exact rational interpreter and independent Fraction elimination",
+    technique="Lean 4 proofs about the dictionary/elimination model + regenerated statement-level "
+              "table of the source with a proved-equal interpreter (T-gen) + differential "
+              "correspondence + exact rational interpreter and independent Fraction elimination",
     design_ref="DESIGN.md §4 C15",
 )
